@@ -197,7 +197,8 @@ def evaluate(ctx, rng, idx, h, phase, force=None):
     non_iso = [row[n] for n in nodes if n in in_edge]
     K = rng.randint(2, min(4, len(non_iso)))
     seed = rng.randrange(10**6)
-    cfg = dict(n_realizations=rng.randint(1, 3), max_iter=rng.choice([1, 2, 5, 10, 20, 40]), check_convergence_every=1, verbose=False)
+    cce = rng.choice([1, 1, 1, 1, 2, 3, 4])  # how often the log-likelihood is evaluated and recorded in the training table
+    cfg = dict(n_realizations=rng.randint(1, 3), max_iter=rng.choice([1, 2, 5, 10, 20, 40]), check_convergence_every=cce, verbose=False)
     no_trunc = rng.random() < 0.5
     if no_trunc:
         cfg.update(min_value_par=0.0, max_value_par=1e300)
@@ -254,16 +255,26 @@ def evaluate(ctx, rng, idx, h, phase, force=None):
 
     # ---------------- Hypergraph-MT with a trace monitor ----------------------------------------------
     trace = {"real": -1, "events": {}, "psi_bad": 0, "em": 0}
-    o_init, o_em = mt.HypergraphMT._initialize_psiOmega, mt.HypergraphMT._update_em
+    o_init, o_em = getattr(mt.HypergraphMT, "_initialize_psiOmega", None), getattr(mt.HypergraphMT, "_update_em", None)  # private: watched when present
 
-    def init_wrapped(self):
+    def init_wrapped(self, *a, **k):
         trace["real"] += 1
         trace["events"][trace["real"]] = []
-        return o_init(self)
+        return o_init(self, *a, **k)
 
-    def em_wrapped(self):
-        before = self.u.copy()
-        r_ = o_em(self)
+    def em_wrapped(self, *a, **k):
+        try:
+            before = self.u.copy()
+        except Exception:
+            return o_em(self, *a, **k)
+        r_ = o_em(self, *a, **k)
+        try:
+            _em_observe(self, before)
+        except Exception as e:  # the monitor must not change what fit() does
+            trace["monitor_error"] = type(e).__name__
+        return r_
+
+    def _em_observe(self, before):
         after = self.u
         trunc = bool(np.any((before > 0) & (after == 0)) or np.any((after == 100.0) & (before != 100.0)))
         pos = after[after > 0]
@@ -277,9 +288,10 @@ def evaluate(ctx, rng, idx, h, phase, force=None):
             if not np.allclose(self.psiOmega[:, k], E[1:], rtol=1e-6, atol=1e-9):
                 trace["psi_bad"] += 1
                 break
-        return r_
 
-    o_lag = mt.HypergraphMT.__dict__["enforce_constraint_u"]
+    o_lag = mt.HypergraphMT.__dict__.get("enforce_constraint_u")
+    if not isinstance(o_lag, staticmethod):
+        o_lag = None
 
     def lag_wrapped(num, den):
         lam = o_lag.__func__(num, den)
@@ -298,14 +310,21 @@ def evaluate(ctx, rng, idx, h, phase, force=None):
         out = quiet(m.fit, h, K=K, seed=seed, normalizeU=normalizeU, baseline_r0=baseline)
         return m, out
 
-    mt.HypergraphMT._initialize_psiOmega, mt.HypergraphMT._update_em = init_wrapped, em_wrapped
-    mt.HypergraphMT.enforce_constraint_u = staticmethod(lag_wrapped)
+    hooked = o_init is not None and o_em is not None
+    if hooked:
+        mt.HypergraphMT._initialize_psiOmega, mt.HypergraphMT._update_em = init_wrapped, em_wrapped
+    else:
+        ctx.note("probe-unavailable:_initialize_psiOmega/_update_em")
+    if o_lag is not None:
+        mt.HypergraphMT.enforce_constraint_u = staticmethod(lag_wrapped)
     try:
         with np.errstate(all="ignore"):
             r = call(fit)
     finally:
-        mt.HypergraphMT._initialize_psiOmega, mt.HypergraphMT._update_em = o_init, o_em
-        mt.HypergraphMT.enforce_constraint_u = o_lag
+        if hooked:
+            mt.HypergraphMT._initialize_psiOmega, mt.HypergraphMT._update_em = o_init, o_em
+        if o_lag is not None:
+            mt.HypergraphMT.enforce_constraint_u = o_lag
     if isinstance(r, _Raised):
         import traceback as _tb
 
@@ -349,7 +368,12 @@ def evaluate(ctx, rng, idx, h, phase, force=None):
         finals[int(r_)] = seqs[int(r_)][-1]
     ctx.check("C17:mt-output", len(finals) == cfg["n_realizations"] and maxL == max(finals.values()), "C17:MT:maxL-is-not-the-best-final-loglik-of-train_info", lambda: wit((maxL, finals)))
     # ---- ascent ----------------------------------------------------------------------------------
-    if not normalizeU:
+    sparse_table = cfg.get("check_convergence_every", 1) != 1
+    if sparse_table:
+        # the table holds every c-th iteration only: the returned value must still be its best final entry (judged above);
+        # step-by-step ascent and agreement with the definition at the returned parameters are judged on full tables
+        ctx.event("table-recorded-every-c-iterations")
+    if not normalizeU and not sparse_table:
         for r_, seq in seqs.items():
             ev = trace["events"].get(r_, [])
             for t in range(1, len(seq)):
@@ -384,7 +408,7 @@ def evaluate(ctx, rng, idx, h, phase, force=None):
     else:
         ctx.event("ascent-not-claimed(normalizeU)")
     # ---- definition ------------------------------------------------------------------------------
-    if cfg.get("min_value_par") == 0.0 and ok and okw:
+    if cfg.get("min_value_par") == 0.0 and ok and okw and not sparse_table:
         ref = definition_loglik(u, w, edges_idx, weights, D)
         if ref is None:
             ctx.note("definition-undefined(zero-probability-hyperedge)")
